@@ -410,6 +410,11 @@ func (ex *exec) conv(t_dst, t_src types.Type, x value) value {
 	sx, ok := x.(symv)
 	if !ok {
 		// []byte(blob) -> string and back
+		if sl, isSl := x.([]value); isSl && isTextBlob(sl) {
+			if b, okb := t_dst.Underlying().(*types.Basic); okb && b.Kind() == types.String {
+				return fromTerm(t_dst, sl[0].(*jsonBlob).rawStr)
+			}
+		}
 		if sl, isSl := x.([]value); isSl && len(sl) == 1 {
 			if jb, isJB := sl[0].(*jsonBlob); isJB {
 				if b, okb := t_dst.Underlying().(*types.Basic); okb && b.Kind() == types.String {
@@ -632,18 +637,25 @@ func (ex *exec) callBuiltin(caller *frame, callpos token.Pos, fn *ssa.Builtin, a
 		}
 		if s, ok := args[1].(string); ok {
 			arg0 := args[0].([]value)
+			if isTextBlob(arg0) {
+				return textBlob(ex.strConcat(bytesAsText(ex, arg0), s))
+			}
 			for i := 0; i < len(s); i++ {
 				arg0 = append(arg0, s[i])
 			}
 			return arg0
 		}
-		if _, ok := args[1].(symv); ok {
-			ex.unsupported("append([]byte, symbolic string)")
+		if sv, ok := args[1].(symv); ok {
+			return textBlob(ex.strConcat(bytesAsText(ex, args[0].([]value)), sv))
 		}
 		a0 := args[0].([]value)
 		a1 := args[1].([]value)
 		if len(a1) == 0 {
 			return a0
+		}
+		if isTextBlob(a0) || isTextBlob(a1) {
+			// []byte text under construction with symbolic parts: concatenate as strings
+			return textBlob(ex.strConcat(bytesAsText(ex, a0), bytesAsText(ex, a1)))
 		}
 		return append(a0, a1...)
 
@@ -775,3 +787,32 @@ func (ex *exec) rangeIter(fr *frame, x value, t types.Type) iter {
 }
 
 var _ = math.MaxInt64
+
+// A "text blob" is a []byte whose content is a (possibly symbolic) string term:
+// the result of []byte(symbolic string) or of appending formatted numbers.
+func isTextBlob(b []value) bool {
+	if len(b) == 1 {
+		if jb, ok := b[0].(*jsonBlob); ok && jb.tree == nil && jb.rawStr != nil {
+			return true
+		}
+	}
+	return false
+}
+
+func textBlob(s value) []value { return []value{&jsonBlob{rawStr: lift(s, sString)}} }
+
+// bytesAsText returns the content of a byte slice as a string value.
+func bytesAsText(ex *exec, b []value) value {
+	if isTextBlob(b) {
+		return fromTerm(types.Typ[types.String], b[0].(*jsonBlob).rawStr)
+	}
+	bs := make([]byte, len(b))
+	for i, v := range b {
+		c, ok := v.(byte)
+		if !ok {
+			ex.unsupported("byte slice with a non-byte element used as text")
+		}
+		bs[i] = c
+	}
+	return string(bs)
+}
